@@ -25,6 +25,7 @@ func init() {
 }
 
 func runC08(r *Run) {
+	r.CacheInventory([]string{"common/db"}, cacheTriage, "a memo of store content (decoded redo/undo records, views) that outlives a commit or rollback makes the next operation apply stale records: what is written durably is then neither the state before nor the state after")
 	add, pop := "common/db.(*ldbManager).Add", "common/db.(*ldbManager).Pop"
 	r.Alias("$prev", "a0.GetCommits()[0].Previous()")
 	r.Alias("$front", "db.GetFrontierIdentifier(db.NewLevelDBSnapshotWrapper(recv.ldb.GetSnapshot()#0).Subset(db.frontierByte))")
